@@ -61,9 +61,9 @@ func c05Pair(r *vlib.Run, id string, min, max time.Duration, extraDraw int64) in
 				bad = "wait is not a whole number of seconds"
 			case d > vCeilSec(max):
 				bad = "wait exceeds MaxRtrAdvInterval"
-			case i < maxInitialAdv && d > maxInitialAdvInterval:
+			case i < vMaxInitialAdv && d > vMaxInitialAdvInterval:
 				bad = "one of the first 3 waits exceeds 16s"
-			case d < vFloorSec(min) && !(i < maxInitialAdv && d == maxInitialAdvInterval):
+			case d < vFloorSec(min) && !(i < vMaxInitialAdv && d == vMaxInitialAdvInterval):
 				bad = "wait below MinRtrAdvInterval"
 			}
 			if bad != "" {
